@@ -222,6 +222,17 @@ type pipeStressCase struct {
 	Burst    int    `json:"burst"`
 }
 
+// countingGroup is a sync.WaitGroup that also counts the registrations
+type countingGroup struct {
+	sync.WaitGroup
+	added atomic.Int64
+}
+
+func (g *countingGroup) Add(delta int) {
+	g.added.Add(int64(delta))
+	g.WaitGroup.Add(delta)
+}
+
 func genPipeStress(s core.Source) pipeStressCase {
 	c := pipeStressCase{Topology: core.Pick(s, []string{"Fork", "Split", "SplitJoin"}, "topology"), FanOut: 2 + s.Choose(7, "fanout"), Cap: uint(1 + s.Choose(4, "cap")),
 		Burst: 1 + s.Choose(16, "burst")}
@@ -240,15 +251,21 @@ func genPipeStress(s core.Source) pipeStressCase {
 func execPipeStress(c pipeStressCase, _ core.Source) (res core.Result) {
 	Q := col.Queue[int](lib.Notation())
 	input := Q.MakeWithCapacity(c.Cap)
-	var group sync.WaitGroup
+	group := &countingGroup{}
 	var outputs []col.QueueLike[int]
+	helpers := 1
 	switch c.Topology {
 	case "Fork":
-		outputs = Q.Fork(&group, input, uint(c.FanOut)).AsArray()
+		outputs = Q.Fork(group, input, uint(c.FanOut)).AsArray()
 	case "Split":
-		outputs = Q.Split(&group, input, uint(c.FanOut)).AsArray()
+		outputs = Q.Split(group, input, uint(c.FanOut)).AsArray()
 	default:
-		outputs = []col.QueueLike[int]{Q.Join(&group, Q.Split(&group, input, uint(c.FanOut)))}
+		outputs = []col.QueueLike[int]{Q.Join(group, Q.Split(group, input, uint(c.FanOut)))}
+		helpers = 2
+	}
+	if n := group.added.Load(); int(n) != helpers {
+		res.Violation = core.Violate("C06/stress/wait-group-not-registered", "%+v: when the function returned %d helper(s) were registered with the caller's wait group, expected %d", c, n, helpers)
+		return
 	}
 	received := make([][]int, len(outputs))
 	after := make([]bool, len(outputs))
@@ -293,7 +310,7 @@ func execPipeStress(c pipeStressCase, _ core.Source) (res core.Result) {
 		res.Violation = core.Violate("C06/stress/stuck", "%+v: feeder or readers did not finish within 120 s", c)
 		return
 	}
-	if !withTimeout(30*time.Second, &group) {
+	if !withTimeout(30*time.Second, &group.WaitGroup) {
 		res.Violation = core.Violate("C06/stress/wait-group", "%+v: the caller's wait group did not return to zero after every output was closed and drained", c)
 		return
 	}
